@@ -222,11 +222,18 @@ def make_sessions(ctx, n, heat):
                     kw.update(bounds=np.arange(0, 9, 2))
                 if sid % 8 == 0:
                     kw.update(meta_columns=["donor"], meta_to_colors=[prs.plotting.labels_to_colors_tableau, prs.plotting.labels_to_colors_tableau])
+                lkw, ckw = dict(method="average", optimal_ordering=True), dict(t=6, criterion="distance")
+                if sid % 9 == 0:
+                    lkw, ckw = dict(method="single"), dict(t=3, criterion="distance")
+                    kw.update(linkage_kws=dict(lkw), cluster_kws=dict(ckw))
+                elif sid % 9 == 3:
+                    lkw, ckw = dict(method="complete", optimal_ordering=False), dict(t=2, criterion="maxclust")
+                    kw.update(linkage_kws=dict(lkw), cluster_kws=dict(ckw))
                 cg, link, cluster = prs.plotting.similarity_clustermap(df, **kw)
                 ev["order"] = [int(i) + 1 for i in cg.dendrogram_row.reordered_ind]
                 ev["data2d"] = [[int(v) for v in row] for row in np.asarray(cg.data2d).tolist()]
-                want_link = hc.linkage(np.array(vec, dtype=float), method="average", optimal_ordering=True)
-                want_cluster = hc.fcluster(want_link, t=6, criterion="distance")
+                want_link = hc.linkage(np.array(vec, dtype=float), **lkw)
+                want_cluster = hc.fcluster(want_link, **ckw)
                 if not (np.allclose(link, want_link) and list(cluster) == list(want_cluster)):
                     side.append((sid, "similarity_clustermap/linkage_or_cluster_differs_from_hierarchical_clustering", f"seqs {sa} / {sb}"))
             except Exception as e:      # noqa: BLE001
